@@ -9,10 +9,11 @@ CONSTANTS
     Base = 0
     SpanLens = {}
     DBRPs = {}
-    SourceLists = {}
+    ChildLists = {}
     WrapUser = TRUE
     TruncNext = TRUE
     CloneSharesGB = TRUE
+    FluxEndsCollection = FALSE
 INVARIANTS
     RangeIsExact
     CloneFindsLiterals
